@@ -19,7 +19,7 @@ RULE = ('(a) arithmetic: T=2..5 x every pair of non-empty defined-slice patterns
         'for partners Obs, CObs, int, float (complex number for complex content) x every pattern; ** with int/float/Obs '
         'exponent; neg, abs; (b) functions: 18 elementary functions x every pattern for T<=4 x data inside the domain and data '
         'producing NaN at chosen slices (method and numpy call); (c) complex content on its supported subset; (d) index maps '
-        'roll(dt=-T..T), reverse, thin(spacing 1..4, offset 0..3), symmetric, anti_symmetric, T_symmetry(+-1), item, '
+        'roll(dt=-2T-1..2T+1), reverse, thin(spacing 1..4, offset 0..3), symmetric, anti_symmetric, T_symmetry(+-1), item, '
         'projected (array / per-timeslice vectors, normalize on/off), trace, matrix_symmetric, Hankel(N=1..3, periodic on/off), '
         'repr/print with a range, every pattern for T<=6; (e) aliasing oracle on all of these.  Non-trivial = an operand '
         'has an undefined slice, or a non-Corr partner, or a NaN-producing value, or an index map')
@@ -362,6 +362,34 @@ def run_func(pe, acc, case):
                         return out
                     call_checked(pe, acc, 'func:%s%s' % (fn, ':nan' if nan_at else ''), sub, '%s(Corr) via %s, pattern %s, NaN-producing value at %s' % (fn, how, pa, list(nan_at)),
                                  f, [A], exp, T, 1, key=('fn', T, fn, tuple(pa), nan_at, how))
+    # matrix-valued content: a not-a-number value in ANY entry makes the timeslice undefined
+    if T <= 3:
+        for fn in ('log', 'sqrt', 'arcsin', 'exp', 'arccosh'):
+            good, badv = FDOM.get(fn, (0.6, None))
+            for pa in patterns(T):
+                for nan_t in [None] + [t for t in range(T) if pa[t]]:
+                    for entry in ([(0, 0), (0, 1), (1, 0), (1, 1)] if (nan_t is not None and badv is not None) else [None]):
+                        M = mkcorr(pe, ('FM', fn), pa, [good] * T, N=2)
+                        if entry is not None:
+                            cont = [None if c is None else c.copy() for c in M.content]
+                            cont[nan_t][entry] = mkobs(pe, ('FMbad', fn, nan_t, entry), badv)
+                            M = pe.Corr(cont)
+                        # keep all entries inside the domain except the chosen one (mkcorr adds small offsets per entry)
+                        for how in ('method', 'numpy'):
+                            sub = dict(case, fn=fn, pa=list(pa), nan_t=nan_t, entry=list(entry) if entry else None, how=how, N=2)
+                            f = (lambda c: getattr(c, fn)()) if how == 'method' else (lambda c: getattr(np, fn)(c))
+
+                            def exp2(M=M):
+                                out = []
+                                for t in range(T):
+                                    if M.content[t] is None:
+                                        out.append(None)
+                                        continue
+                                    e = getattr(np, fn)(M.content[t])
+                                    out.append(None if entry_isnan(e, pe) else e)
+                                return out
+                            call_checked(pe, acc, 'func-matrix:%s%s' % (fn, ':nan' if entry else ''), sub, '%s(matrix Corr) via %s, pattern %s, NaN-producing value at t=%s entry %s' % (fn, how, pa, nan_t, entry),
+                                         f, [M], exp2, T, 2, key=('fnm', T, fn, tuple(pa), nan_t, entry, how))
     # division producing 0/0 at one slice (Corr / Corr is specified to drop NaN slices)
     for pa in patterns(T):
         for z in [t for t in range(T) if pa[t]]:
@@ -429,7 +457,7 @@ def run_maps(pe, acc, case):
         C = pe.Corr([C0.content[t][0] if pa[t] else None for t in range(T)])
         c = C.content
         sub0 = dict(case, pa=list(pa))
-        for dt in range(-T, T + 1):
+        for dt in range(-2 * T - 1, 2 * T + 2):
             call_checked(pe, acc, 'roll', dict(sub0, dt=dt), 'roll(%d), pattern %s' % (dt, pa), lambda x, d: x.roll(d), [C, dt],
                          lambda: [c[(t - dt) % T] for t in range(T)], T, 1, key=('roll', T, pa, dt))
         call_checked(pe, acc, 'reverse', sub0, 'reverse(), pattern %s' % (pa,), lambda x: x.reverse(), [C], lambda: [c[T - 1 - t] for t in range(T)], T, 1, key=('rev', T, pa))
